@@ -142,6 +142,12 @@ def _work(arg):
             out["inconclusive"] += 1
         if v:
             out["viol"].append(v)
+    for k, pr in (good[:1] + bad[:1]):
+        try:
+            out.setdefault("samples", []).append({"actual_case": True, "probe": pr["what"], "source": P.render(pr["stmts"]).text[:1200],
+                                                  "expected": pr["expect"] if pr["expect"] is not None else "a reported error (exit 103)"})
+        except Exception:
+            pass
     # strip unpicklable / heavy payloads
     out["viol"] = [(s, w, src, {"what": pr["what"], "expect": pr["expect"]} if pr else None) for s, w, src, pr in out["viol"]]
     return out
@@ -157,6 +163,9 @@ def run(rep, modname, descs, prefix, chunk=120, oracle="sequence/map model"):
         for n in res.get("notes", []):
             rep.note_inconclusive(n)
         rep.inconclusive += max(0, res["inconclusive"] - len(res.get("notes", [])))
+        for smp in res.get("samples", []):
+            if sum(1 for x in rep.samples if isinstance(x, dict) and x.get("actual_case")) < 3:
+                rep.samples.insert(0, smp)
         for t, v in res["tags"].items():
             rep.tally("probes", t, v)
         for sig, what, src, info in res["viol"]:
